@@ -141,6 +141,15 @@ void harness(void) {
 		V_ASSERT(r == EINVAL, "EINVAL");
 		V_WITNESS("not detected");
 	}
+#elif T == 10	/* sdp_msg_type_get_count */
+#ifdef KF_SDP_TYPE_GET_END
+	V_ASSUME(LEN != 1);
+	for (size_t i = 0; i + 1 < LEN; i++) V_ASSUME(!(m[i] == '\r' && m[i + 1] == '\n' && i + 4 > LEN));
+#endif
+	size_t c = sdp_msg_type_get_count(m, LEN, IN.type);
+	V_ASSERT(c <= LEN / 2 + 1, "count bounded by the number of lines that fit");
+	if (c > 1) V_WITNESS("counted >= 2");
+	V_WITNESS("counted");
 #else
 #error "T"
 #endif
